@@ -95,8 +95,11 @@ def run(chk):
     n_cases = 120 if chk.tier == "quick" else 1500
     g = gen.Gen(chk.seed, spaces="ov", numbered_prob=0.15)
     gs = gen.Gen(chk.seed + 1, spaces="ov", spins=True, numbered_prob=0.1)
+    # three and more index classes: general next to occupied / virtual indices
+    gq = gen.Gen(chk.seed + 2, spaces="ovg", general_prob=0.35,
+                 numbered_prob=0.1)
     for case in range(n_cases):
-        gg = gs if case % 5 == 4 else g
+        gg = gs if case % 5 == 4 else gq if case % 5 == 2 else g
         if case % 6 == 5:
             real, explicit = False, True
             targets, terms, cls = structured_terms(gg, r)
